@@ -105,9 +105,13 @@ def make_plan(seed: int, tier: str, index: int) -> dict[str, Any]:
             plan["fresh_map"] = False
         return plan
     # (b) record-order faults on one or more section bodies
+    big = index % 240 == 17 and bool(doc["tracks"])
+    if big:
+        # one track of a few thousand notes at distinct ticks (batching / prefetching by size)
+        gen.add_many_notes(g, doc, 2100 + (index // 240) % 5 * 300)
     secs = gen.sections(doc)
     variants = [{"fault": "none", "text": gen.render_sections(secs)}]
-    for _ in range(f.randint(3, 6)):
+    for _ in range(1 if big else f.randint(3, 6)):
         s2 = copy.deepcopy(secs)
         faults = []
         for _k in range(f.choice([1, 1, 2, 3])):
